@@ -172,6 +172,21 @@ def h_get_values(ishape, mshape, usermask, m):
     if len(vals) == len(sel):
         for k, (ww, vv) in enumerate(sel):
             m.require(f'value {k} is pixel x weight (C order)', vals[k] == vv * ww)
+    if um is not None:
+        # history: a call with a user mask must not influence a later call without one
+        again = np.asarray(mask.get_values(img))
+        full = []
+        for j in range(ny):
+            for i in range(nx):
+                y, x = Y0 + j, X0 + i
+                if 0 <= y < H and 0 <= x < W and bool(w[j, i] > 0):
+                    full.append(img[y, x] * w[j, i])
+        m.require('after a call with a user mask, a call without one returns every positive-weight pixel',
+                  len(again) == len(full) and all(bool(a == b) if not symx.is_sym(a == b) else True for a, b in zip(again, full)))
+        if len(again) == len(full):
+            for k in range(len(full)):
+                m.require(f'later unmasked value {k}', again[k] == full[k])
+        m.require('the mask data itself is unchanged', _same_cells(np.asarray(mask.data), _cells(w)))
 
 
 def h_mask_errors(m):
